@@ -14,7 +14,7 @@ EXPLANATION = (
     "unqualified Identifier node through node_location, and offsets cross position_to_utf8 / utf8_range_to_position with "
     "the text of the same locator (units rule). Correctness for every cursor position and inverse-ness as a relation are "
     "not decided.")
-EXPLANATION += ' Further clauses: (R3) the handlers answer from trees of the current texts (shared C15.R1-R4, R6); (U) the units rules over the conversion functions and the handlers. (R4) REFS-WHOLE - the references handler removes nothing from the collected locations. R1 also requires External equality to pair each field of self with the same field of other; (R5) CURSOR - the cursor test is half-open.'
+EXPLANATION += ' Further clauses: (R3) the handlers answer from trees of the current texts (shared C15.R1-R4, R6); (U) the units rules over the conversion functions and the handlers. (R4) REFS-WHOLE - the references handler removes nothing from the collected locations. R1 also requires External equality to pair each field of self with the same field of other; (R5) CURSOR - the cursor test is half-open. (R6) FOLDERS - the folders that answer a request are selected by Folder::contains alone; (R7) LOADER-TEXT (shared C11.R1).'
 TECHNIQUE = "static analysis: resolved-callee identity + provenance (def-use) rules on the LSP handlers"
 
 
@@ -334,7 +334,39 @@ def r5_cursor_half_open(c, facts, rule='C17.R5'):
         c.ok(R, {'syntax_at': 'half-open test', 'tests': [k for k, _ in tests]})
 
 
+def r6_folders(c, facts, rule='C17.R6'):
+    """a request about a document is answered from every workspace folder whose program contains that document - wherever
+    the file lies on disk (a module imported from outside the folder root is part of the program)"""
+    R = c.rule(rule, 'FOLDERS: the folders that answer a request are selected by Folder::contains alone')
+    ff = c.anchor(R, 'oal_client::lsp::handlers::find_folders')
+    fam = [ff] + list(facts.closures_of(ff))
+    sel = 0
+    other = set()
+    for g in fam:
+        if not g.mir:
+            continue
+        names = {P.strip(callee_of(t)['def']).split('::')[-1] for b, t in g.calls() if callee_of(t)}
+        if g is ff:
+            continue
+        # a closure handed to a selecting adaptor
+        if 'contains' in names and any(P.call_blocks(g, 'Folder::contains')):
+            sel += 1
+            continue
+        tests = names & {'starts_with', 'ends_with', 'contains', 'eq', 'ne', 'strip_prefix', 'make_relative', 'is_some', 'is_none', 'cmp', 'partial_cmp', 'matches'}
+        if tests:
+            other |= tests
+    c.floor(R, 'selecting closures of find_folders that ask Folder::contains', sel, 1)
+    if other:
+        c.bad(R, 'find_folders:extra-selection:%s' % ','.join(sorted(other)), 'find_folders also selects folders by %s: a module that the program imports from outside the folder root gets no answer (go-to-definition and find-references inside it return nothing)' % sorted(other))
+    else:
+        c.ok(R, {'find_folders': 'Folder::contains only'})
+
+
 def run(c, facts):
+    c.run(r6_folders, facts)
+    import c11 as _c11
+    R7 = c.rule('C17.R7', 'LOADER-TEXT: the spans of definitions and references index the text the server converts them with: the text reaches the lexer unchanged (shared with C11.R1)')
+    c.shared(R7, _c11.r1_lex_range, 'C11.R1', facts)
     c.run(r5_cursor_half_open, facts)
     c.run(r4_refs_unfiltered, facts)
     c.run(r3_fresh_and_units, facts)
